@@ -1235,6 +1235,31 @@ example : ∃ L g, readEvents classifyLine wLimit c3.file = .ok L ∧ replayRaw 
   C14_inv_concurrent_on_disk [] [] envsW 0 wLimit ets readEvents_nil allWf_nil .init envsW_ok envsW_T c3 creach3 c3_clock
 end DiskConcRun
 
+/-! ### a lock-free reader of the byte-level system: what it decoded satisfies every invariant -/
+section DiskReaderRun
+open ProcB Proc
+noncomputable def r0 : BSys := BSys.init [] (envsW.map fun (es : Env × Sec) => secDecide es.1 es.2) 1 wLimit ets
+noncomputable def r1 : BSys := setReaderB r0 0 (.opened r0.cur)
+noncomputable def r2 : BSys := setReaderB r1 0 (.done (decode r1.limit (r1.files.getD 0 [])))
+theorem rstep01 : BStep r0 r1 := BStep.rOpen r0 0 (by simp [r0, BSys.init])
+theorem rstep12 : BStep r1 r2 := BStep.rRead r1 0 0 (by simp [r1, r0, BSys.init, setReaderB])
+theorem rnot_torn_01 : ¬ Torn r0 r1 := by
+  rintro ⟨p, w, snap, evs, k, h1, h2, _, _⟩
+  cases p with
+  | zero => simp [r0, envsW, BSys.init] at h1; subst h1; cases h2
+  | succ p => simp [r0, envsW, BSys.init] at h1
+theorem rnot_torn_12 : ¬ Torn r1 r2 := by
+  rintro ⟨p, w, snap, evs, k, h1, h2, _, _⟩
+  cases p with
+  | zero => simp [r1, r0, envsW, BSys.init, setReaderB] at h1; subst h1; cases h2
+  | succ p => simp [r1, r0, envsW, BSys.init, setReaderB] at h1
+theorem rreach2 : BReachableNT r0 r2 := .tail (.tail (.refl _) rstep01 rnot_torn_01) rstep12 rnot_torn_12
+example : ∃ g, replay (decode r1.limit (r1.files.getD 0 [])) = .ok g ∧ AllInv g :=
+  C13_byte_reader_state_is_valid [] [] envsW 1 wLimit ets readEvents_nil allWf_nil .init envsW_ok envsW_T r2 rreach2
+    (by intro i p snap w g hc; simp [r2, r1, r0, BSys.init, setReaderB] at hc)
+    0 _ (by simp [r2, r1, r0, BSys.init, setReaderB])
+end DiskReaderRun
+
 end JsonWitness
 
 /-! ### the lock as a file name: two processes find `.ergo/lock` missing, both create it, one gets in -/
